@@ -403,6 +403,7 @@ def plan(tier):
     from mc import wrgraph
     units += [('scale',) + (u[1],) for u in wrgraph.scale_units(tier, 6)[0]]
     units.append(('rewrite',))
+    units.append(('reparsed-edit',))
     units.append(('equal-sections',))
     units.append(('subclass',))
     return {
@@ -550,8 +551,110 @@ def check_rewrite(ti, ei):
     return v
 
 
+OPTION_EDITS = {
+    'preamble': [('indent', 2), ('mimetype', 'text/markdown'),
+                 ('encoding', 'utf-8'), ('line_endings', 'dos')],
+    'meta': [('encoding', 'utf-8'), ('format', 'json')],
+    'diff': [('type', 'text'), ('encoding', 'latin-1'),
+             ('line_endings', 'dos')],
+    'container': [('encoding', 'latin-1')],
+}
+
+
+def reparse_trees():
+    """Trees in which many sections carry EQUAL options and content (what a
+    real multi-commit file looks like)."""
+    out = list(rewrite_trees())
+    d = DiffX(preamble='same\n', meta={'k': 'v'})
+    for ci in range(2):
+        c = d.add_change(preamble='same\n', meta={'k': 'v'})
+        for fi in range(2):
+            c.add_file(meta={'k': 'v'}, diff=SAMPLE_DIFF)
+    out.append(d)
+    return out
+
+
+def reparse_edits(ti):
+    from mc.domsnap import sections_of
+    out = []
+    for path, sec in sections_of(reparse_trees()[ti]):
+        kind = path.rsplit('.', 1)[-1]
+        if kind not in OPTION_EDITS:
+            kind = 'container'
+        for k, v in OPTION_EDITS[kind]:
+            out.append((path, k, v))
+    return out
+
+
+def check_reparsed_edit(ti, ei):
+    """The tree that parsing returns IS the tree that was written: setting
+    one option on one of its sections and serialising gives the bytes that
+    the same edit gives on a tree built through the constructors in the
+    same state (and changes no other section)."""
+    from mc.domsnap import tree_from_snap, sections_of
+    from mc.observe import fresh
+    path, k, val = reparse_edits(ti)[ei]
+
+    def others(t):
+        return [(p_, freeze(x.options), freeze(x._content)
+                 if hasattr(x, '_content') else None)
+                for p_, x in sections_of(t) if p_ != path]
+
+    def edit(t):
+        dict(sections_of(t))[path].options[fresh(k)] = fresh(val)
+        try:
+            return ('ok', t.to_bytes())
+        except Exception as e:
+            return ('raised', type(e).__name__)
+    try:
+        parsed = DiffX.from_bytes(reparse_trees()[ti].to_bytes())
+        rebuilt = tree_from_snap(snap(parsed))
+        if parsed.to_bytes() != rebuilt.to_bytes():
+            return []       # reported by the round-trip units
+        before = others(parsed)
+        got = edit(parsed)
+        want = edit(rebuilt)
+        after = others(parsed)
+    except Exception as e:
+        return [('reparsed-edit-raised:%s:%s' % (type(e).__name__,
+                                                 site_of(e)), repr(e))]
+    v = []
+    label = '%s.options[%r] = %r' % (path, k, val)
+    if freeze(got) != freeze(want):
+        v.append(('parsed-tree-edit-serialises-differently:%s'
+                  % path.rsplit('.', 1)[-1].split('[')[0],
+                  'after %s on the parsed tree to_bytes() gives %s; the same '
+                  'edit on a constructor-built tree in the same state gives '
+                  '%s' % (label, _short(got), _short(want))))
+    # every other section is as it was
+    if before != after:
+        v.append(('parsed-tree-edit-changed-another-section', label))
+    return v
+
+
+def _short(x):
+    r = repr(x)
+    return r if len(r) < 400 else r[:200] + '...' + r[-180:]
+
+
 def run_unit(unit, tier):
     acc = Acc()
+    if unit[0] == 'reparsed-edit':
+        for ti in range(len(reparse_trees())):
+            for ei in range(len(reparse_edits(ti))):
+                viols = check_reparsed_edit(ti, ei)
+                acc.evals += 1
+                acc.states += 1
+                acc.transitions += 3
+                acc.validated += 1
+                acc.nontrivial += 1
+                for key, msg in viols:
+                    acc.violation(key, msg, {'kind': 'reparsed-edit',
+                                             'ti': ti, 'ei': ei})
+                acc.outcome('ok' if not viols else 'violation')
+        acc.sample({'option_edits_on_parsed_trees':
+                    [list(e) for e in reparse_edits(0)[:5]]}, 1)
+        return acc
     if unit[0] == 'subclass':
         for order in ('base-first', 'sub-first', 'sibling-first'):
             viols = check_subclass(order)
@@ -653,6 +756,9 @@ def replay(payload):
                 for k, m in check_subclass(payload['order'])]
     if payload.get('kind') == 'equal':
         return [{'key': k, 'msg': m} for k, m in check_equal_doc(payload['i'])]
+    if payload.get('kind') == 'reparsed-edit':
+        return [{'key': k, 'msg': m} for k, m in check_reparsed_edit(
+            payload['ti'], payload['ei'])]
     if payload.get('kind') == 'rewrite':
         return [{'key': k, 'msg': m}
                 for k, m in check_rewrite(payload['ti'], payload['ei'])]
